@@ -660,6 +660,16 @@ def rule_guard_error_if(prog, rep):
                 rav = ("call", ("ext", "jax.numpy.ravel"), (), (("a", P),))
                 want = ("cmp", "!=", ("call", ("ext", "jax.numpy.sort"), (), (("a", rav),)),
                         ("call", ("ext", "jax.numpy.arange"), (("attr", P, "size"),), (("dtype", ("ext", "builtins.int")),)))
+        # a cast of the argument to an array before the test does not change which values are rejected
+        def strip_casts(t_):
+            def rw(s_):
+                if s_[0] == "call" and s_[1] in (("ext", "flowjax.utils.arraylike_to_array"), ("ext", "jax.numpy.asarray")):
+                    kw_ = dict(s_[3])
+                    return kw_.get("arr") or kw_.get("a") or (s_[2][0] if s_[2] else None)
+                return None
+            return subst(t_, rw)
+        if pred is not None:
+            pred, want = strip_casts(pred), strip_casts(want)
         ok = pred is not None and (equal(pred, want) or equal(pred, ("cmp", want[1], want[3], want[2])) if want[1] == "!=" else equal(pred, want))
         rep.check(ok, "C11.guard", site, k + ":predicate", show(pred, 120) if pred else "-",
                   f"rejection predicate is {show(pred, 200) if pred else None}, expected {show(want, 200)} "
